@@ -51,6 +51,7 @@ class Statistics(Contract):
     )
     strength = "S"
     agreement_runs = 0
+    native_refutation = True  # sqrt obligations the solvers leave open are attacked by sampled inputs (sums, products, sqrt: benign in floats)
     max_paths = {"quick": 600, "thorough": 3000}
     not_decided = ("that least_squares terminates successfully (T on scipy)",)
 
